@@ -15,7 +15,7 @@ def run_case(s, ro_txt, kind, kw, mid=2, pretty=False, ctx=None):
     return s.step(ro, msg, ctx)
 
 
-HOSTILE_NAMES = ['S1', 's1', 'S1 ', 'S10', ' S1', 'S01']
+HOSTILE_NAMES = ['S1', 's1', 'S1 ', '5" x 7\' card', 'S10', ' S1', 'S01', 'B"][itemID=\'B\'][itemID="B']
 
 
 def story_grid(s, nmax, layouts=LAYOUTS, pretties=(False, True), kmax=3, full=True, timed=(True,),
@@ -82,7 +82,7 @@ def kind_weights(story=1.0, item=1.0, other=0.3, end=0.05):
 
 def fuzz_history(s, hidx, weights, steps=(5, 30), text='plain', timing='any', rich=True,
                  shape_weights=(0.78, 0.1, 0.08, 0.04), selfref=0.06, after_end=3, on_state=None,
-                 ro_kw=None, direct=0.0):
+                 ro_kw=None, direct=0.0, blank_carried=0.0):
     rng = s.rng('hist', hidx)
     pool = gen.text_pool(text)
     ids = gen.Ids('F%d.' % hidx)
@@ -100,7 +100,8 @@ def fuzz_history(s, hidx, weights, steps=(5, 30), text='plain', timing='any', ri
             break
         kind = weighted_kinds(rng, weights)
         msg = gen.rand_message(rng, state, kind, 100 + k, ids, pool=pool, timing=timing,
-                               shape_weights=shape_weights, selfref=selfref, rich=rich)
+                               shape_weights=shape_weights, selfref=selfref, rich=rich,
+                               blank_carried=blank_carried)
         if direct and not state.completed and rng.random() < direct:
             ro, err, v, ev = s.step_direct(ro, msg, {'history': hidx, 'step': k, 'direct': True})
         else:
@@ -205,6 +206,8 @@ def subset_cases(S, level, story_ref=None, nmax=4):
                 if level == 'story':
                     yield 'roStoryDelete', dict(ids=named), n, mask
                     yield 'EAStoryDelete', dict(ids=named), n, mask
+                    for t in (rest[:1] + [BLANK, 'zz-unk-target']):
+                        yield 'EAStoryDelete', dict(ids=named, target=t), n, mask
                     for t in (rest[:1] + [BLANK]):
                         yield 'EAStoryMove', dict(ids=named, target=t), n, mask
                 else:
